@@ -462,6 +462,24 @@ func c19Run(c *Ctx, k c19Case) {
 			return
 		}
 	}
+	// ... also behind calls that failed half-way: the input cut at every offset (the cuts that fall inside a field
+	// fail after the fields before it were seen), then the input itself again
+	for cut := len(in) - 1; cut > 0; cut-- {
+		var out4 []byte
+		var err4 error
+		if p := protect(func() {
+			rw.Rewrite(nil, in[:cut])
+			out4, err4 = rw.Rewrite(nil, in)
+		}); p != "" {
+			fail("Rewriter.Rewrite(after a call that failed)", "no panic", p, "")
+			return
+		}
+		if err4 != nil || !bytes.Equal(out4, outSnap) {
+			fail("Rewriter.Rewrite(after a call that failed)", "the same output for the same input: "+hex.EncodeToString(outSnap),
+				fmt.Sprintf("%x err=%v (the call before was given the first %d bytes of the input)", out4, err4, cut), "")
+			return
+		}
+	}
 	// neither the input nor the template is modified
 	if !bytes.Equal(in, inSnap) {
 		fail("Rewriter.Rewrite(input)", "input unchanged", "input modified", "")
